@@ -5,7 +5,7 @@ out=${1:-/tmp/seed_sweep.log}; : > $out
 for id in $(python3 -c "import json;print(' '.join(c['property_id'] for c in json.load(open('MANIFEST.json'))['checks']))"); do
   for s in ${SEEDS:-1 2 3 4}; do
     cp evidence/$id.json /tmp/.ev-sweep-$id.json 2>/dev/null
-    r=$(VERIF_SEED=$s timeout 900 ./check $id --tier ${TIER:-quick} 2>&1 | grep -a -E "VIOLATION|INFRA|ok tier|FAIL tier" | tr '\n' ' ')
+    r=$(VERIF_SEED=$s timeout ${TMO:-900} ./check $id --tier ${TIER:-quick} 2>&1 | grep -a -E "VIOLATION|INFRA|ok tier|FAIL tier" | tr '\n' ' ')
     echo "$id seed=$s rc=$? $r" >> $out
     mv -f /tmp/.ev-sweep-$id.json evidence/$id.json 2>/dev/null
   done
